@@ -338,6 +338,8 @@ func replayC04(c *Ctx, op string, args []string) bool {
 			return false
 		}
 		c04RT(c, byte(t), unhx(args[1]))
+	case "snbt.conc":
+		return c04ConcReplay(c, args)
 	default:
 		return false
 	}
@@ -363,6 +365,27 @@ var c04FixedStrings = []string{
 	// more " than ' (single-quote branch) with ' and \ inside; as many or fewer (double-quote branch)
 	`"it's"`, `say "it's"`, `""'`, `"'"`, `'""`, `""'\`, `"\'"`, `\'""`, `"a'b\c"`, `"\\'\"`, `""''\`, `"'\"'"`,
 	`'it"s'`, `''"\`, `'"'`, `"''`, `'\"'`, `\"''`, `'a"b\c'`,
+	// byte classes (the format's strings are raw bytes here; Java's "modified UTF-8" forms must survive byte-exact):
+	// C0 80 (MUTF-8 NUL), C0 AF and E0 80 80 (over-long), ED A0 80 / ED B0 80 (surrogates), F8+ lead bytes,
+	// lone continuation bytes, a real NUL, FF FE
+	"\xc0\x80", "a\xc0\x80b", "\xc0\x80\xc0\x80", "\xc0\xaf", "\xe0\x80\x80", "\xed\xa0\x80\xed\xb0\x80", "\xf8\x88\x80\x80\x80",
+	"\xfc\x84\x80\x80\x80\x80", "\x80", "\xbf\x80", "a\x00b", "\x00", "\xff\xfe", "\xc0", "\xc0\x80\"'\\", "x\xc0\x80 y",
+}
+
+var c04ByteAtoms = []string{
+	"\xc0\x80", "\xc0\x80", "\xc0\xaf", "\xc1\xbf", "\xe0\x80\x80", "\xe0\x9f\xbf", "\xed\xa0\x80", "\xed\xbf\xbf", "\xf0\x80\x80\x80",
+	"\xf4\x90\x80\x80", "\xf8\x88\x80\x80\x80", "\xfc", "\xfe", "\xff", "\xff\xfe", "\x80", "\xbf", "\x00", "\xc0", "\xe0\x80", "\xc3\xa9",
+	"\xe2\x82\xac", "\xf0\x9f\x98\x80", "a", "Z", "0", " ", "\"", "'", "\\", ":", ",", "\n", "\x7f",
+}
+
+// c04ByteClassString: a short string assembled from byte-class atoms (over-long and surrogate UTF-8 forms,
+// MUTF-8 NUL, stray lead and continuation bytes, real NUL, ASCII, quotes and backslashes)
+func c04ByteClassString(c *Ctx) string {
+	var sb strings.Builder
+	for i, n := 0, 1+c.R.Intn(5); i < n; i++ {
+		sb.WriteString(c04ByteAtoms[c.R.Intn(len(c04ByteAtoms))])
+	}
+	return sb.String()
 }
 
 const c04QuoteAlphabet = "\"\"\"'''\\\\a 1"
@@ -401,7 +424,9 @@ func c04QuoteString(c *Ctx) string {
 const c04Allowed = "0123456789ABCDEFGHIJKLMNOPQRSTUVWXYZabcdefghijklmnopqrstuvwxyz_.+-"
 
 func c04PoolString(c *Ctx) string {
-	switch k := c.R.Intn(12); {
+	switch k := c.R.Intn(14); {
+	case k >= 12:
+		return c04ByteClassString(c)
 	case k >= 10:
 		return c04QuoteString(c)
 	case k < 6:
@@ -660,6 +685,20 @@ func (g *c04Gen) genDocs() {
 		g.valid(9, c04EncString(c04be32([]byte{8}, 1), s), true)
 		g.valid(9, c04EncString(c04EncString(c04be32([]byte{8}, 2), s), "z"), true)
 		g.valid(9, c04EncString(c04EncString(c04be32([]byte{8}, 2), "z"), s), true)
+	}
+	// byte-class strings: value, compound key (with such a value), list element
+	for i := 0; i < c.N(300, 6000); i++ {
+		s := c04ByteClassString(c)
+		switch i % 3 {
+		case 0:
+			g.valid(8, c04EncString(nil, s), true)
+		case 1:
+			b := c04EncString([]byte{8}, s)
+			b = append(c04EncString(b, c04ByteClassString(c)), 0)
+			g.valid(10, b, true)
+		default:
+			g.valid(9, c04EncString(c04EncString(c04be32([]byte{8}, 2), s), c04ByteClassString(c)), true)
+		}
 	}
 	// strings with mixed quote kinds and backslashes: value, compound key, list element
 	for i := 0; i < c.N(300, 6000); i++ {
@@ -1309,6 +1348,11 @@ func c04HandPicked(c *Ctx) []string {
 			l = append(l, `{"`+a+`":[]}`)
 		}
 	}
+	// names of 32769 / 40000 / 65535 bytes: refused, or a document the library can read back
+	for _, n := range []int{32769, 40000, 65535} {
+		a := strings.Repeat("k", n)
+		l = append(l, "{"+a+":1b}", "{"+a+":[]}", "{"+a+":{}}", "{"+a+":[I;1]}", "{x:{"+a+":a}}", "[{"+a+":1}]")
+	}
 	if c.Thorough() {
 		l = append(l,
 			strings.Repeat("[", 10001)+strings.Repeat("]", 10001),
@@ -1391,6 +1435,9 @@ func c04GenTexts(c *Ctx) {
 func genC04(c *Ctx) {
 	g := &c04Gen{c: c, debug: os.Getenv("C04_DEBUG") != ""}
 	c04GenTexts(c)
+	for i := 0; i < c.N(6, 40); i++ {
+		c04Conc(c, 8, 200, c.R.Int63n(1<<40))
+	}
 	g.genDocs()
 	g.genSizes()
 	g.genMalformed()
